@@ -26,7 +26,7 @@ for pid in ids:
 na = [{"property_id": p, "reason": NOT_APPLICABLE.get(p, "check not built yet (work in progress); not claimed")} for p in ids if p not in PROPS or PROPS[p].get("wip")]
 m = {
     "version": 1,
-    "setup_cmd": "cd harness && cargo build --release --offline --bins && cargo build --release --offline --features fixed_point --target-dir target_fixed_point --bin egv_c18 --bin egv_c08 --bin egv_c02 --bin egv_c05 --bin egv_c06 --bin egv_c07 && cargo build --offline --target-dir target_dev --bin egv_c08",
+    "setup_cmd": "cd harness && cargo build --release --offline --bins && cargo build --release --offline --features fixed_point --target-dir target_fixed_point --bin egv_c18 --bin egv_c08 --bin egv_c02 --bin egv_c05 --bin egv_c06 --bin egv_c07 && cargo build --offline --target-dir target_dev --bin egv_c08 --bin egv_c09",
     "hooks": {
         "guard": "--cfg embedded_graphics_verif",
         "enable": "harness/.cargo/config.toml passes --cfg embedded_graphics_verif (and the matching --check-cfg) to every crate of the harness build",
